@@ -1,5 +1,72 @@
+// leaf_ext.cpp - further case kinds of the leaf driver
+#include <ftp/ftp.hpp>
+#include <ftp/detail/utils.hpp>
+#include <boost/asio/ip/address.hpp>
+#include <boost/asio/ip/tcp.hpp>
 #include "leaf_ext.hpp"
+#include "hexio.hpp"
+
+using namespace ftp;
+using namespace ftp::detail;
+
+static boost::asio::ip::address ip_of(const std::vector<std::string> & f, size_t & i)
+{
+    if (f.at(i) == "4")
+    {
+        std::string t = f.at(i + 1) + "." + f.at(i + 2) + "." + f.at(i + 3) + "." + f.at(i + 4);
+        i += 5;
+        return boost::asio::ip::make_address(t);
+    }
+    std::string t = unhex(f.at(i + 1));
+    i += 2;
+    return boost::asio::ip::make_address(t);
+}
+
 std::string leaf_ext_run(const std::vector<std::string> & f)
 {
-    return "IMPL-ERROR unknown case kind " + f.at(0);
+    const std::string & k = f.at(0);
+    if (k == "pasv")
+    {
+        reply r(227, unhex(f.at(1)));
+        std::string ip; std::uint16_t port = 0;
+        if (!client::try_parse_pasv_reply(r, ip, port)) return "none";
+        return hex(ip) + " " + std::to_string(port);
+    }
+    if (k == "epsv")
+    {
+        reply r(229, unhex(f.at(1)));
+        std::uint16_t port = 0;
+        if (!client::try_parse_epsv_reply(r, port)) return "none";
+        return std::to_string(port);
+    }
+    if (k == "portcmd" || k == "eprtcmd")
+    {
+        size_t i = 1;
+        boost::asio::ip::address a = ip_of(f, i);
+        boost::asio::ip::tcp::endpoint ep(a, (unsigned short)std::stoul(f.at(i)));
+        return hex(k == "portcmd" ? client::make_port_command(ep) : client::make_eprt_command(ep));
+    }
+    if (k == "port_rt")
+    {
+        size_t i = 0;
+        std::vector<std::string> g = {"4", f.at(1), f.at(2), f.at(3), f.at(4)};
+        boost::asio::ip::address a = ip_of(g, i);
+        boost::asio::ip::tcp::endpoint ep(a, (unsigned short)std::stoul(f.at(5)));
+        std::string cmd = client::make_port_command(ep);
+        reply r(227, "227 ok (" + cmd.substr(5) + ").");
+        std::string ip; std::uint16_t port = 0;
+        if (!client::try_parse_pasv_reply(r, ip, port)) return "none";
+        return hex(ip) + " " + std::to_string(port);
+    }
+    if (k == "eprt_rt")
+    {
+        boost::asio::ip::tcp::endpoint ep(boost::asio::ip::make_address("127.0.0.1"), (unsigned short)std::stoul(f.at(1)));
+        std::string cmd = client::make_eprt_command(ep);
+        std::vector<std::string> parts = utils::split_string(cmd, '|');
+        reply r(229, "229 ok (|||" + parts.at(3) + "|)");
+        std::uint16_t port = 0;
+        if (!client::try_parse_epsv_reply(r, port)) return "none";
+        return std::to_string(port);
+    }
+    return "IMPL-ERROR unknown case kind " + k;
 }
